@@ -73,3 +73,4 @@ impl<'a> VxSplitN<'a> {
             vx_splitn_remaining(old(self)).len() > 0 ==> r == Some(vx_splitn_remaining(old(self))[0]) && vx_splitn_remaining(final(self)) == vx_splitn_remaining(old(self)).drop_first(),
     { self.0.next() }
 }
+
